@@ -900,12 +900,33 @@ pub fn apply_qop(q: &mut purl::Qualifiers, op: &Value) -> Value {
             json!({"calls": calls})
         },
         "iter_mut_set" => {
+            // IterMut from both ends alternately (and once through IntoIterator for &mut), with exact size hints
+            let n = q.len();
             let mut calls = 0;
-            for (_, v) in q.iter_mut() {
-                calls += 1;
+            let mut hints_ok = true;
+            {
+                let mut it = q.iter_mut();
+                hints_ok &= it.len() == n;
+                let mut front = true;
+                loop {
+                    let item = if front { it.next() } else { it.next_back() };
+                    let Some((_, v)) = item else { break };
+                    calls += 1;
+                    *v = k.as_str().into();
+                    front = !front;
+                    hints_ok &= it.size_hint() == (n - calls, Some(n - calls));
+                }
+            }
+            let mut again = 0;
+            for (_, v) in &mut *q {
+                again += 1;
                 *v = k.as_str().into();
             }
-            json!({"calls": calls})
+            if !hints_ok || again != calls {
+                json!({"disagree": "IterMut size hints / IntoIterator for &mut"})
+            } else {
+                json!({"calls": calls})
+            }
         },
         "clear" => {
             q.clear();
